@@ -52,6 +52,9 @@ static void run_case(long idx)
     int const nframes = (P02 || P05) ? 1 + (int)vr_u(&r, 3) : 1;
     vparams P; vp_random(&r, &P, VP_MT | VP_MAGICLESS | (P05 ? VP_SMALLWIN * (int)vr_u(&r, 2) : 0));
     if (P.windowLog > 22) vp_level_only(&P);
+    /* stratum "sub-blocks" (every 12th case): targetCBlockSize on, data that yields sub-blocks with very few sequences */
+    int const sbStratum = (idx % 12) == 5;
+    if (sbStratum && !P.targetCBlockSize) { P.targetCBlockSize = (int)vr_range(&r, 1340, vr_chance(&r, 1, 2) ? 2500 : 8000); vp_add(&P, ZSTD_c_targetCBlockSize, P.targetCBlockSize); vp_redesc(&P); }
     /* entry point family for this case: mostly compressStream2 / legacy (chosen per frame by the script), 1 case in 4 (C02, C05) one of the
      * stable-buffer modes, the buffer-less API or ZBUFF */
     int alt = 0; if ((P02 || P05) && vr_chance(&r, 1, 4)) alt = HA_STABLE_IN + (int)vr_u(&r, HA_NB - HA_STABLE_IN);
@@ -60,8 +63,8 @@ static void run_case(long idx)
     if (P.magicless && nframes > 1) { P.magicless = 0; for (int i = 0; i < P.n; i++) if (P.p[i] == ZSTD_c_format) P.v[i] = 0; }
     /* dictionary (C05): raw content, must drop out of reach with small windows */
     size_t dictLen = 0; uint8_t* dict = NULL; int dictMode = 0;
-    size_t total = 0, ctotal = 0; size_t const cap = nframes * (ZSTD_compressBound(g_maxSize) + 1024) + 4096;
-    uint8_t* x = (uint8_t*)malloc(nframes * g_maxSize + 16); uint8_t* dst = (uint8_t*)malloc(cap);
+    size_t total = 0, ctotal = 0; size_t const cap = (nframes + 3) * (ZSTD_compressBound(g_maxSize) + 1024) + 4096;
+    uint8_t* x = (uint8_t*)malloc((nframes + 3) * g_maxSize + 16); uint8_t* dst = (uint8_t*)malloc(cap);
     fbound fb[16]; int nfb = 0; char desc[700]; int dlen0;
     ZSTD_CCtx* c = ZSTD_createCCtx();
     if (ZSTD_isError(vp_apply(c, &P))) { v_stat("params_rejected", 1); goto out; }
@@ -69,11 +72,17 @@ static void run_case(long idx)
     dlen0 = snprintf(desc, sizeof desc, "entry=%s params=[%s] frames=%d", alt ? ha_name[alt] : "script", P.desc, nframes);
     v_stat("cases", 1);
     for (int f = 0; f < nframes; f++) {
-        int const fam = (int)vr_u(&r, DF_NB); size_t n = pick_size(&r, g_maxSize);
+        int fam = (int)vr_u(&r, DF_NB); size_t n = pick_size(&r, g_maxSize); if (sbStratum) { fam = vr_chance(&r, 2, 3) ? DF_SPARSE : DF_REPBAIT; if (n < 20000) n = 20000 + vr_u(&r, 200000); }
         if (P05 && P.windowLog && vr_chance(&r, 1, 2)) { size_t const w = (size_t)1 << P.windowLog; size_t const want = w + 1 + vr_u64(&r, 3 * w); n = want < g_maxSize ? want : g_maxSize; }     /* longer than the window */
-        gen_data(&r, x + total, n, vr_chance(&r, 1, 3) ? DF_LONGREP : fam);
+        gen_data(&r, x + total, n, (!sbStratum && vr_chance(&r, 1, 3)) ? DF_LONGREP : fam);
         if (dict && f == 0) { gen_data(&r, dict, dictLen, fam); if (n > 64) memcpy(dict + dictLen - V_MIN(dictLen, n / 2), x + total, V_MIN(dictLen, n / 2)); if (dictLen >= 4 && dict[0] == 0x37 && dict[1] == 0xA4 && dict[2] == 0x30 && dict[3] == 0xEC) dict[0] ^= 1; }
+        /* MT only (C05): the compression level is raised or lowered in mid-frame (documented as allowed with nbWorkers >= 1, effective from the next job): the frame
+         * header was written by the first job; data = a long base repeated at a distance D that only some levels' windows reach */
+        int const midChange = P05 && P.nbWorkers > 0 && !alt && f == 0 && vr_chance(&r, 1, 2);
+        if (midChange) { size_t const D = (size_t)vr_range(&r, 200000, 1500000); n = V_MIN(g_maxSize * 3, D * 2 + (size_t)vr_u(&r, 400000)); vr_fill(&r, x + total, V_MIN(n, D)); for (size_t i = D; i < n; i++) x[total + i] = x[total + i - D]; for (size_t i = D; i < n; i += 1 + vr_u(&r, 20000)) x[total + i] ^= 0x55; }
         hscript S; h_gen_script(&r, n, &S, P.nbWorkers == 0);
+        if (midChange && S.nseg > 1) { S.chgAtSeg = 1 + (int)vr_u(&r, (uint32_t)V_MIN(S.nseg - 1, 6)); S.chgLevel = vr_chance(&r, 1, 2) ? (int)vr_range(&r, 1, 19) : (int)vr_range(&r, -5, 3); v_stat("frames_with_mid_frame_level_change", 1); }
+        else if (midChange) { /* single-segment script: cut it so that there is a point to change at */ size_t const l0 = S.seg[0].len; if (l0 > 1000) { S.seg[1] = S.seg[0]; S.seg[0].len = l0 / 3; S.seg[0].dir = ZSTD_e_flush; S.seg[1].len = l0 - l0 / 3; S.nseg = 2; S.chgAtSeg = 1; S.chgLevel = (int)vr_range(&r, 1, 19); v_stat("frames_with_mid_frame_level_change", 1); } }
         if (P.nbWorkers && n > 300000) for (int i = 0; i < S.nOut; i++) if (S.outPat[i] < 256) S.outPat[i] += 256;
         hlog L; memset(&L, 0, sizeof L); long tooMany = 0;
         if (dict && !HA_IS_LEVELONLY(alt)) { if (dictMode == 1) ZSTD_CCtx_refPrefix_advanced(c, dict, dictLen, ZSTD_dct_rawContent); else if (f == 0) ZSTD_CCtx_loadDictionary_advanced(c, dict, dictLen, ZSTD_dlm_byRef, ZSTD_dct_rawContent); }
